@@ -15,7 +15,7 @@ Oracles
 """
 import struct
 
-from mc import core, explore
+from mc import core, explore, lap
 from mc.world import World, Monitor
 from mc.pair import DeliveryMonitor, app_send, payload, quiescent, RETRY
 from mpgameserver.connection import ConnectionStatus
@@ -411,6 +411,7 @@ def params_list_bound1(tier):
 
 def run(tier, seed):
     rep = core.Report()
+    laps = lap.start(tier)
     plist = params_list(tier)
     if seed:
         k = seed % len(plist)
@@ -434,7 +435,11 @@ def run(tier, seed):
     for v in st.violations:
         rep.add_violation(core.Violation(v["oracle"], v["sig"], {"params": v["params"], "choices": v["choices"], "labels": v["labels"]},
                                          "%s | params=%r deviations=%r" % (v["message"], v["params"], v["labels"])))
+    lap_v, lap_cov = lap.collect(laps, PROPERTY)
+    for v in lap_v:
+        rep.add_violation(v)
     rep.coverage = {
+        "long_session_part": lap_cov,
         "states": st.points, "transitions": st.steps, "traces_validated_against_impl": st.executions,
         "executions": st.executions, "executions_by_deviation_count": st.by_cost, "configurations": len(plist),
         "max_deviations_completed": bound if not st.capped else "capped",
@@ -449,6 +454,8 @@ def run(tier, seed):
 
 
 def replay(witness):
+    if "lap" in witness:
+        return lap.replay(witness, PROPERTY)
     ch = explore.replay_choices(scenario, _tup(witness["params"]), witness["choices"])
     return [core.Violation(o, s, witness, m) for o, s, m in ch.found]
 
